@@ -117,8 +117,8 @@ def ctxFree : Ty → Bool
 theorem isEnum_default (p : PrimTy) (h : isEnum p = true) : primIsDefault p = true := by
   cases p <;> simp [isEnum] at h; rfl
 
-theorem denote_ctx (F6 : Facts06) (tns ctx ctx' : Text) (t : Ty) (h : ctxFree t = true) :
-    denote F6 tns ctx t = denote F6 tns ctx' t := by
+theorem denote_ctx (pf : PrimTy → List Facet) (tns ctx ctx' : Text) (t : Ty) (h : ctxFree t = true) :
+    denote pf tns ctx t = denote pf tns ctx' t := by
   cases t with
   | prim p o => simp [denote]
   | obj n ns b fs o => simp [denote]
@@ -191,28 +191,28 @@ theorem conformsArr_forall (t : Ty) (vs : List Val) (h : conformsArr t vs = true
     · exact ih h.2 v e
 
 /-- the occurrences written for one element slot: all named `(ns, name)` and valid for `t` -/
-def RunOk (F6 : Facts06) (tns ns name : Text) (t : Ty) (out : List Node) : Prop :=
-  ∀ x ∈ out, nodeKey x = (ns, name) ∧ validS (denote F6 tns ns t) t.occ.nillable x = true
+def RunOk (pf : PrimTy → List Facet) (tns ns name : Text) (t : Ty) (out : List Node) : Prop :=
+  ∀ x ∈ out, nodeKey x = (ns, name) ∧ validS (denote pf tns ns t) t.occ.nillable x = true
 
 /-- what the member loop produces for the members `fs` of a class in namespace `cns` -/
-def MembersOk (F6 : Facts06) (tns cns : Text) (fs : List (Text × Ty)) (kids : List Node) : Prop :=
+def MembersOk (pf : PrimTy → List Facet) (tns cns : Text) (fs : List (Text × Ty)) (kids : List Node) : Prop :=
   (∀ x ∈ kids, ∃ k, k ∈ fs.map (·.1) ∧ nodeKey x = (cns, k)) ∧
-  seqOk (slotsS (denoteFields F6 tns cns fs)) (kids.map nodeKey) = true ∧
+  seqOk (slotsS (denoteFields pf tns cns fs)) (kids.map nodeKey) = true ∧
   (∀ ps : List (Key × Occ × STy),
-    (∀ f ∈ fs, findS ps (cns, f.1) = some (f.2.occ, denote F6 tns cns f.2)) → validChildrenS ps kids = true)
+    (∀ f ∈ fs, findS ps (cns, f.1) = some (f.2.occ, denote pf tns cns f.2)) → validChildrenS ps kids = true)
 
-theorem RunOk_nil (F6 : Facts06) (tns ns name : Text) (t : Ty) : RunOk F6 tns ns name t [] := by
+theorem RunOk_nil (pf : PrimTy → List Facet) (tns ns name : Text) (t : Ty) : RunOk pf tns ns name t [] := by
   intro x hx; cases hx
 
-theorem RunOk_append {F6 : Facts06} {tns ns name : Text} {t : Ty} {a b : List Node}
-    (ha : RunOk F6 tns ns name t a) (hb : RunOk F6 tns ns name t b) : RunOk F6 tns ns name t (a ++ b) := by
+theorem RunOk_append {pf : PrimTy → List Facet} {tns ns name : Text} {t : Ty} {a b : List Node}
+    (ha : RunOk pf tns ns name t a) (hb : RunOk pf tns ns name t b) : RunOk pf tns ns name t (a ++ b) := by
   intro x hx
   rcases List.mem_append.mp hx with h | h
   · exact ha x h
   · exact hb x h
 
-theorem findS_denoteFields (F6 : Facts06) (tns ns : Text) (fs : List (Text × Ty)) (hn : namesNodup fs = true) :
-    ∀ f ∈ fs, findS (denoteFields F6 tns ns fs) (ns, f.1) = some (f.2.occ, denote F6 tns ns f.2) := by
+theorem findS_denoteFields (pf : PrimTy → List Facet) (tns ns : Text) (fs : List (Text × Ty)) (hn : namesNodup fs = true) :
+    ∀ f ∈ fs, findS (denoteFields pf tns ns fs) (ns, f.1) = some (f.2.occ, denote pf tns ns f.2) := by
   induction fs with
   | nil => intro f hf; cases hf
   | cons g gs ih =>
@@ -246,38 +246,41 @@ theorem occWf_of_tyWf (t : Ty) (h : tyWf t = true) : occWf t.occ = true := by
   | arr m e o => simp only [tyWf, Bool.and_eq_true] at h; exact h.1.1.1.1
 
 section
-variable (F : Facts08) (G : F.Good) (F6 : Facts06) (cfg : Cfg) (I : Iface)
+variable (F : Facts08) (pf : PrimTy → List Facet) (c : PrimTy → Val → Bool)
+  (hleaf : ∀ p v, p.valueOk v = true → c p v = true →
+    ∃ s, leafToText F p v = some s ∧ simpleOk (builtinOf p) (pf p) s = true)
+  (cfg : Cfg) (I : Iface)
 
 def P1 (n : Nat) : Prop :=
-  ∀ v t ns name, vsize v ≤ n → conformsOne t v = true → tyWf t = true → xsdRepresentable v = true →
-    (toParent F cfg I ns name t v).length = 1 ∧ RunOk F6 I.tns ns name t (toParent F cfg I ns name t v)
+  ∀ v t ns name, vsize v ≤ n → conformsOne t v = true → tyWf t = true → leavesOne c t v = true →
+    (toParent F cfg I ns name t v).length = 1 ∧ RunOk pf I.tns ns name t (toParent F cfg I ns name t v)
 
 def P2 (n : Nat) : Prop :=
   ∀ vs fs cns, fsize vs ≤ n → conformsFields fs vs = true → fieldsWf fs = true → namesNodup fs = true →
-    repFields vs = true → MembersOk F6 I.tns cns fs (membersToParent F cfg I cns fs vs)
+    leavesFields c fs vs = true → MembersOk pf I.tns cns fs (membersToParent F cfg I cns fs vs)
 
 def P3 (n : Nat) : Prop :=
-  ∀ vs t ns name, lsize vs ≤ n → (∀ v ∈ vs, conformsOne t v = true) → tyWf t = true → repList vs = true →
+  ∀ vs t ns name, lsize vs ≤ n → (∀ v ∈ vs, conformsOne t v = true) → tyWf t = true → leavesItems c t vs = true →
     (itemsToParent F cfg I ns name t vs).length = vs.length ∧
-    RunOk F6 I.tns ns name t (itemsToParent F cfg I ns name t vs)
+    RunOk pf I.tns ns name t (itemsToParent F cfg I ns name t vs)
 
-theorem step3 (n : Nat) (h1 : P1 F F6 cfg I n) (h3 : P3 F F6 cfg I n) : P3 F F6 cfg I (n + 1) := by
+theorem step3 (n : Nat) (h1 : P1 F pf c cfg I n) (h3 : P3 F pf c cfg I n) : P3 F pf c cfg I (n + 1) := by
   intro vs t ns name hs hc hw hr
   cases vs with
   | nil => exact ⟨rfl, RunOk_nil _ _ _ _ _⟩
   | cons v r =>
     simp only [lsize] at hs
-    simp only [repList, Bool.and_eq_true] at hr
+    simp only [leavesItems, Bool.and_eq_true] at hr
     have a := h1 v t ns name (by omega) (hc v (by simp)) hw hr.1
     have b := h3 r t ns name (by omega) (fun x hx => hc x (by simp [hx])) hw hr.2
     simp only [itemsToParent, List.length_append, a.1, b.1, List.length_cons]
     exact ⟨by omega, RunOk_append a.2 b.2⟩
 
 /-- the wrapper element of an `Array` with its items -/
-theorem arr_wrapper (n : Nat) (h3 : P3 F F6 cfg I n) (member : Text) (elem : Ty) (o : Occ) (ns name : Text) (items : List Val)
+theorem arr_wrapper (n : Nat) (h3 : P3 F pf c cfg I n) (member : Text) (elem : Ty) (o : Occ) (ns name : Text) (items : List Val)
     (hs : lsize items ≤ n) (hc : conformsArr elem items = true) (hw : tyWf (.arr member elem o) = true)
-    (hr : repList items = true) :
-    validS (denote F6 I.tns ns (.arr member elem o)) o.nillable
+    (hr : leavesItems c elem items = true) :
+    validS (denote pf I.tns ns (.arr member elem o)) o.nillable
       (.elem ns name [] none
         (itemsToParent F cfg I (memberNs I.tns ns member elem) (memberLocal member) elem items)) = true := by
   have hfree := ctxFree_of_tyWf_elem member elem o hw
@@ -300,21 +303,21 @@ theorem arr_wrapper (n : Nat) (h3 : P3 F F6 cfg I n) (member : Text) (elem : Ty)
     rw [seqOk_block _ _ _ _ _ _ (by intro x hx; cases hx)]
     · rfl
     · unfold Occ.countOk; rw [hmin, hmax]; simp
-  · apply validChildrenS_of_forall _ elem.occ (denote F6 I.tns ns elem)
+  · apply validChildrenS_of_forall _ elem.occ (denote pf I.tns ns elem)
     intro c hc'
     have hk := a.2 c hc'
     refine ⟨?_, ?_⟩
     · rw [hk.1]; simp [findS]
-    · rw [denote_ctx F6 I.tns ns (memberNs I.tns ns member elem) elem hfree]; exact hk.2
+    · rw [denote_ctx pf I.tns ns (memberNs I.tns ns member elem) elem hfree]; exact hk.2
 
-include G in
+include hleaf in
 theorem leaf_node (p : PrimTy) (o : Occ) (ns name : Text) (v : Val)
-    (hv : p.valueOk v = true) (hr : xsdRepresentable v = true)
+    (hv : p.valueOk v = true) (hr : c p v = true)
     (hshape : toParent F cfg I ns name (.prim p o) v =
       (match leafToText F p v with | some s => [.elem ns name [] (mkText s) []] | none => [])) :
     (toParent F cfg I ns name (.prim p o) v).length = 1 ∧
-    RunOk F6 I.tns ns name (.prim p o) (toParent F cfg I ns name (.prim p o) v) := by
-  obtain ⟨s, hs, hok⟩ := leaf_simpleOk F G F6 p v hv hr
+    RunOk pf I.tns ns name (.prim p o) (toParent F cfg I ns name (.prim p o) v) := by
+  obtain ⟨s, hs, hok⟩ := hleaf p v hv hr
   rw [hshape, hs]
   refine ⟨rfl, ?_⟩
   intro x hx
@@ -322,8 +325,8 @@ theorem leaf_node (p : PrimTy) (o : Occ) (ns name : Text) (v : Val)
   subst hx
   exact ⟨rfl, validS_plain_simple _ _ _ _ _ _ hok⟩
 
-include G in
-theorem step1 (n : Nat) (h2 : P2 F F6 cfg I n) (h3 : P3 F F6 cfg I n) : P1 F F6 cfg I (n + 1) := by
+include hleaf in
+theorem step1 (n : Nat) (h2 : P2 F pf c cfg I n) (h3 : P3 F pf c cfg I n) : P1 F pf c cfg I (n + 1) := by
   intro v t ns name hs hc hw hr
   cases v with
   | none =>
@@ -345,7 +348,7 @@ theorem step1 (n : Nat) (h2 : P2 F F6 cfg I n) (h3 : P3 F F6 cfg I n) : P1 F F6 
       subst hcls
       simp only [tyWf, Bool.and_eq_true] at hw
       simp only [vsize] at hs
-      simp only [xsdRepresentable] at hr
+      simp only [leavesOne] at hr
       have m := h2 vs fields cns (by omega) hcf hw.2 hw.1.2 hr
       have hp : polyTarget cfg I cls cls = none := by simp [polyTarget]
       simp only [toParent, hp]
@@ -355,7 +358,7 @@ theorem step1 (n : Nat) (h2 : P2 F F6 cfg I n) (h3 : P3 F F6 cfg I n) : P1 F F6 
       subst hx
       refine ⟨rfl, ?_⟩
       simp only [denote]
-      exact validS_plain_complex _ _ _ _ _ m.2.1 (m.2.2 _ (findS_denoteFields F6 I.tns cns fields hw.1.2))
+      exact validS_plain_complex _ _ _ _ _ m.2.1 (m.2.2 _ (findS_denoteFields pf I.tns cns fields hw.1.2))
   | list items =>
     cases t with
     | prim p o => simp [conformsOne, PrimTy.valueOk] at hc
@@ -363,56 +366,56 @@ theorem step1 (n : Nat) (h2 : P2 F F6 cfg I n) (h3 : P3 F F6 cfg I n) : P1 F F6 
     | arr m e o =>
       simp only [conformsOne] at hc
       simp only [vsize] at hs
-      simp only [xsdRepresentable] at hr
+      simp only [leavesOne] at hr
       simp only [toParent]
       refine ⟨rfl, ?_⟩
       intro x hx
       simp only [List.mem_singleton] at hx
       subst hx
-      exact ⟨rfl, arr_wrapper F F6 cfg I n h3 m e o ns name items (by omega) hc hw hr⟩
+      exact ⟨rfl, arr_wrapper F pf c cfg I n h3 m e o ns name items (by omega) hc hw hr⟩
   | int i =>
     cases t with
-    | prim p o => exact leaf_node F G F6 cfg I p o ns name _ (by simpa [conformsOne] using hc) hr rfl
+    | prim p o => exact leaf_node F pf c hleaf cfg I p o ns name _ (by simpa [conformsOne] using hc) (by simpa [leavesOne] using hr) rfl
     | obj cname cns b fields o => simp [conformsOne] at hc
     | arr m e o => simp [conformsOne] at hc
   | bool i =>
     cases t with
-    | prim p o => exact leaf_node F G F6 cfg I p o ns name _ (by simpa [conformsOne] using hc) hr rfl
+    | prim p o => exact leaf_node F pf c hleaf cfg I p o ns name _ (by simpa [conformsOne] using hc) (by simpa [leavesOne] using hr) rfl
     | obj cname cns b fields o => simp [conformsOne] at hc
     | arr m e o => simp [conformsOne] at hc
   | str i =>
     cases t with
-    | prim p o => exact leaf_node F G F6 cfg I p o ns name _ (by simpa [conformsOne] using hc) hr rfl
+    | prim p o => exact leaf_node F pf c hleaf cfg I p o ns name _ (by simpa [conformsOne] using hc) (by simpa [leavesOne] using hr) rfl
     | obj cname cns b fields o => simp [conformsOne] at hc
     | arr m e o => simp [conformsOne] at hc
   | date i =>
     cases t with
-    | prim p o => exact leaf_node F G F6 cfg I p o ns name _ (by simpa [conformsOne] using hc) hr rfl
+    | prim p o => exact leaf_node F pf c hleaf cfg I p o ns name _ (by simpa [conformsOne] using hc) (by simpa [leavesOne] using hr) rfl
     | obj cname cns b fields o => simp [conformsOne] at hc
     | arr m e o => simp [conformsOne] at hc
   | time i =>
     cases t with
-    | prim p o => exact leaf_node F G F6 cfg I p o ns name _ (by simpa [conformsOne] using hc) hr rfl
+    | prim p o => exact leaf_node F pf c hleaf cfg I p o ns name _ (by simpa [conformsOne] using hc) (by simpa [leavesOne] using hr) rfl
     | obj cname cns b fields o => simp [conformsOne] at hc
     | arr m e o => simp [conformsOne] at hc
   | dt i =>
     cases t with
-    | prim p o => exact leaf_node F G F6 cfg I p o ns name _ (by simpa [conformsOne] using hc) hr rfl
+    | prim p o => exact leaf_node F pf c hleaf cfg I p o ns name _ (by simpa [conformsOne] using hc) (by simpa [leavesOne] using hr) rfl
     | obj cname cns b fields o => simp [conformsOne] at hc
     | arr m e o => simp [conformsOne] at hc
   | dur i =>
     cases t with
-    | prim p o => exact leaf_node F G F6 cfg I p o ns name _ (by simpa [conformsOne] using hc) hr rfl
+    | prim p o => exact leaf_node F pf c hleaf cfg I p o ns name _ (by simpa [conformsOne] using hc) (by simpa [leavesOne] using hr) rfl
     | obj cname cns b fields o => simp [conformsOne] at hc
     | arr m e o => simp [conformsOne] at hc
   | bytes i =>
     cases t with
-    | prim p o => exact leaf_node F G F6 cfg I p o ns name _ (by simpa [conformsOne] using hc) hr rfl
+    | prim p o => exact leaf_node F pf c hleaf cfg I p o ns name _ (by simpa [conformsOne] using hc) (by simpa [leavesOne] using hr) rfl
     | obj cname cns b fields o => simp [conformsOne] at hc
     | arr m e o => simp [conformsOne] at hc
   | enum i =>
     cases t with
-    | prim p o => exact leaf_node F G F6 cfg I p o ns name _ (by simpa [conformsOne] using hc) hr rfl
+    | prim p o => exact leaf_node F pf c hleaf cfg I p o ns name _ (by simpa [conformsOne] using hc) (by simpa [leavesOne] using hr) rfl
     | obj cname cns b fields o => simp [conformsOne] at hc
     | arr m e o => simp [conformsOne] at hc
 
@@ -442,11 +445,11 @@ def fieldCond (t : Ty) (v : Val) : Bool :=
   | .none => decide (t.occ.minOccurs = 0) || (t.occ.nillable && !t.occ.repeated)
   | v => conforms t v
 
-theorem other_value (n : Nat) (h1 : P1 F F6 cfg I n) (cns k : Text) (t : Ty) (w : Val)
-    (hs : vsize w ≤ n) (hcond : conforms t w = true) (hw : tyWf t = true) (hr : xsdRepresentable w = true)
+theorem other_value (n : Nat) (h1 : P1 F pf c cfg I n) (cns k : Text) (t : Ty) (w : Val)
+    (hs : vsize w ≤ n) (hcond : conforms t w = true) (hw : tyWf t = true) (hr : leavesOne c t w = true)
     (hnl : ∀ items, w ≠ .list items) (hnn : w ≠ .none)
     (hout : fieldOut F cfg I cns k t w = if t.occ.repeated then [] else toParent F cfg I cns k t w) :
-    RunOk F6 I.tns cns k t (fieldOut F cfg I cns k t w) ∧ t.occ.countOk (fieldOut F cfg I cns k t w).length = true := by
+    RunOk pf I.tns cns k t (fieldOut F cfg I cns k t w) ∧ t.occ.countOk (fieldOut F cfg I cns k t w).length = true := by
   have hrep : t.occ.repeated = false := by
     cases hrp : t.occ.repeated with
     | false => rfl
@@ -467,10 +470,10 @@ def arrField (t : Ty) : Bool :=
   | .arr _ _ o => !o.repeated
   | _ => true
 
-theorem fieldOut_ok (n : Nat) (h1 : P1 F F6 cfg I n) (h3 : P3 F F6 cfg I n) (cns k : Text) (t : Ty) (v : Val)
+theorem fieldOut_ok (n : Nat) (h1 : P1 F pf c cfg I n) (h3 : P3 F pf c cfg I n) (cns k : Text) (t : Ty) (v : Val)
     (hs : vsize v ≤ n) (hcond : fieldCond t v = true) (hw : tyWf t = true)
-    (hr : xsdRepresentable v = true) :
-    RunOk F6 I.tns cns k t (fieldOut F cfg I cns k t v) ∧ t.occ.countOk (fieldOut F cfg I cns k t v).length = true := by
+    (hr : leaves c t v = true) :
+    RunOk pf I.tns cns k t (fieldOut F cfg I cns k t v) ∧ t.occ.countOk (fieldOut F cfg I cns k t v).length = true := by
   have hocc := occWf_of_tyWf t hw
   cases v with
   | none =>
@@ -493,39 +496,40 @@ theorem fieldOut_ok (n : Nat) (h1 : P1 F F6 cfg I n) (h3 : P3 F F6 cfg I n) (cns
   | list items =>
     simp only [fieldCond, conforms] at hcond
     simp only [vsize] at hs
-    simp only [xsdRepresentable] at hr
+    simp only [leaves] at hr
     simp only [fieldOut]
     cases hrp : t.occ.repeated with
     | true =>
-      rw [hrp] at hcond
-      simp only [if_true, Bool.and_eq_true] at hcond ⊢
+      rw [hrp] at hcond hr
+      simp only [if_true, Bool.and_eq_true] at hcond hr ⊢
       have a := h3 items t cns k (by omega) (conformsItems_forall t items hcond.2) hw hr
       exact ⟨a.2, by rw [a.1]; exact hcond.1⟩
     | false =>
-      rw [hrp] at hcond
-      simp only [Bool.false_eq_true, if_false] at hcond ⊢
+      rw [hrp] at hcond hr
+      simp only [Bool.false_eq_true, if_false] at hcond hr ⊢
       cases t with
       | prim p o => simp [conformsOne, PrimTy.valueOk] at hcond
       | obj cname cns' b fields o => simp [conformsOne] at hcond
       | arr m e o =>
         simp only [conformsOne] at hcond
+        simp only [leavesOne] at hr
         refine ⟨?_, countOk_one _ hocc hrp⟩
         intro x hx
         simp only [List.mem_singleton] at hx
         subst hx
-        exact ⟨rfl, arr_wrapper F F6 cfg I n h3 m e o cns k items (by omega) hcond hw hr⟩
-  | obj cls ws => exact other_value F F6 cfg I n h1 cns k t _ hs hcond hw hr (by intro i e; cases e) (by intro e; cases e) rfl
-  | int i => exact other_value F F6 cfg I n h1 cns k t _ hs hcond hw hr (by intro i e; cases e) (by intro e; cases e) rfl
-  | bool i => exact other_value F F6 cfg I n h1 cns k t _ hs hcond hw hr (by intro i e; cases e) (by intro e; cases e) rfl
-  | str i => exact other_value F F6 cfg I n h1 cns k t _ hs hcond hw hr (by intro i e; cases e) (by intro e; cases e) rfl
-  | date i => exact other_value F F6 cfg I n h1 cns k t _ hs hcond hw hr (by intro i e; cases e) (by intro e; cases e) rfl
-  | time i => exact other_value F F6 cfg I n h1 cns k t _ hs hcond hw hr (by intro i e; cases e) (by intro e; cases e) rfl
-  | dt i => exact other_value F F6 cfg I n h1 cns k t _ hs hcond hw hr (by intro i e; cases e) (by intro e; cases e) rfl
-  | dur i => exact other_value F F6 cfg I n h1 cns k t _ hs hcond hw hr (by intro i e; cases e) (by intro e; cases e) rfl
-  | bytes i => exact other_value F F6 cfg I n h1 cns k t _ hs hcond hw hr (by intro i e; cases e) (by intro e; cases e) rfl
-  | enum i => exact other_value F F6 cfg I n h1 cns k t _ hs hcond hw hr (by intro i e; cases e) (by intro e; cases e) rfl
+        exact ⟨rfl, arr_wrapper F pf c cfg I n h3 m e o cns k items (by omega) hcond hw hr⟩
+  | obj cls ws => exact other_value F pf c cfg I n h1 cns k t _ hs hcond hw (by simpa [leaves] using hr) (by intro i e; cases e) (by intro e; cases e) rfl
+  | int i => exact other_value F pf c cfg I n h1 cns k t _ hs hcond hw (by simpa [leaves] using hr) (by intro i e; cases e) (by intro e; cases e) rfl
+  | bool i => exact other_value F pf c cfg I n h1 cns k t _ hs hcond hw (by simpa [leaves] using hr) (by intro i e; cases e) (by intro e; cases e) rfl
+  | str i => exact other_value F pf c cfg I n h1 cns k t _ hs hcond hw (by simpa [leaves] using hr) (by intro i e; cases e) (by intro e; cases e) rfl
+  | date i => exact other_value F pf c cfg I n h1 cns k t _ hs hcond hw (by simpa [leaves] using hr) (by intro i e; cases e) (by intro e; cases e) rfl
+  | time i => exact other_value F pf c cfg I n h1 cns k t _ hs hcond hw (by simpa [leaves] using hr) (by intro i e; cases e) (by intro e; cases e) rfl
+  | dt i => exact other_value F pf c cfg I n h1 cns k t _ hs hcond hw (by simpa [leaves] using hr) (by intro i e; cases e) (by intro e; cases e) rfl
+  | dur i => exact other_value F pf c cfg I n h1 cns k t _ hs hcond hw (by simpa [leaves] using hr) (by intro i e; cases e) (by intro e; cases e) rfl
+  | bytes i => exact other_value F pf c cfg I n h1 cns k t _ hs hcond hw (by simpa [leaves] using hr) (by intro i e; cases e) (by intro e; cases e) rfl
+  | enum i => exact other_value F pf c cfg I n h1 cns k t _ hs hcond hw (by simpa [leaves] using hr) (by intro i e; cases e) (by intro e; cases e) rfl
 
-theorem step2 (n : Nat) (h1 : P1 F F6 cfg I n) (h2 : P2 F F6 cfg I n) (h3 : P3 F F6 cfg I n) : P2 F F6 cfg I (n + 1) := by
+theorem step2 (n : Nat) (h1 : P1 F pf c cfg I n) (h2 : P2 F pf c cfg I n) (h3 : P3 F pf c cfg I n) : P2 F pf c cfg I (n + 1) := by
   intro vs fs cns hs hc hw hn hr
   cases fs with
   | nil =>
@@ -551,9 +555,9 @@ theorem step2 (n : Nat) (h1 : P1 F F6 cfg I n) (h2 : P2 F F6 cfg I n) (h3 : P3 F
       simp only [fieldsWf, Bool.and_eq_true, decide_eq_true_eq] at hw
       obtain ⟨⟨⟨_, hwt⟩, harr⟩, hwr⟩ := hw
       simp only [namesNodup, Bool.and_eq_true, Bool.not_eq_true', List.any_eq_false, decide_eq_true_eq] at hn
-      simp only [repFields, Bool.and_eq_true] at hr
+      simp only [leavesFields, Bool.and_eq_true] at hr
       simp only [fsize] at hs
-      have a := fieldOut_ok F F6 cfg I n h1 h3 cns k t v (by omega) hcond hwt hr.1
+      have a := fieldOut_ok F pf c cfg I n h1 h3 cns k t v (by omega) hcond hwt hr.1
       have b := h2 r fs' cns (by omega) hcr hwr hn.2 hr.2
       rw [membersToParent_cons]
       have hrest : ∀ x ∈ (membersToParent F cfg I cns fs' r).map nodeKey, x ≠ (cns, k) := by
@@ -585,14 +589,14 @@ theorem step2 (n : Nat) (h1 : P1 F F6 cfg I n) (h2 : P2 F F6 cfg I n) (h3 : P3 F
       · intro ps hps
         rw [validChildrenS_append, Bool.and_eq_true]
         constructor
-        · apply validChildrenS_of_forall ps t.occ (denote F6 I.tns cns t)
+        · apply validChildrenS_of_forall ps t.occ (denote pf I.tns cns t)
           intro c hc2
           have hk := a.1 c hc2
           exact ⟨by rw [hk.1]; exact hps (k, t) (by simp), hk.2⟩
         · exact b.2.2 ps (fun g hg => hps g (by simp [hg]))
 
-include G in
-theorem emit_all (n : Nat) : P1 F F6 cfg I n ∧ P2 F F6 cfg I n ∧ P3 F F6 cfg I n := by
+include hleaf in
+theorem emit_all (n : Nat) : P1 F pf c cfg I n ∧ P2 F pf c cfg I n ∧ P3 F pf c cfg I n := by
   induction n with
   | zero =>
     refine ⟨?_, ?_, ?_⟩
@@ -613,15 +617,15 @@ theorem emit_all (n : Nat) : P1 F F6 cfg I n ∧ P2 F F6 cfg I n ∧ P3 F F6 cfg
       | cons v r => simp [lsize] at hs
   | succ n ih =>
     obtain ⟨i1, i2, i3⟩ := ih
-    exact ⟨step1 F G F6 cfg I n i2 i3, step2 F F6 cfg I n i1 i2 i3, step3 F F6 cfg I n i1 i3⟩
+    exact ⟨step1 F pf c hleaf cfg I n i2 i3, step2 F pf c cfg I n i1 i2 i3, step3 F pf c cfg I n i1 i3⟩
 
-include G in
+include hleaf in
 /-- **B**: the element written for a conformant value of `t` is valid for the schema type `t` denotes -/
 theorem emitted_validS (t : Ty) (v : Val) (ns name : Text)
-    (hc : conformsOne t v = true) (hw : tyWf t = true) (hr : xsdRepresentable v = true) :
+    (hc : conformsOne t v = true) (hw : tyWf t = true) (hr : leavesOne c t v = true) :
     ∃ x, encode F cfg I ns name t v = [x] ∧ nodeKey x = (ns, name) ∧
-      validS (denote F6 I.tns ns t) t.occ.nillable x = true := by
-  have h := (emit_all F G F6 cfg I (vsize v)).1 v t ns name (Nat.le_refl _) hc hw hr
+      validS (denote pf I.tns ns t) t.occ.nillable x = true := by
+  have h := (emit_all F pf c hleaf cfg I (vsize v)).1 v t ns name (Nat.le_refl _) hc hw hr
   unfold encode
   cases hl : toParent F cfg I ns name t v with
   | nil => rw [hl] at h; simp at h
